@@ -14,7 +14,7 @@
    Vectors are zero-padded lists (`vnth`, `qupd`): all accesses are total, like in Vec.v.
    A step that throws in the code returns None.  No proofs in this file. *)
 From Coq Require Import QArith Qabs List Bool Arith.
-From SV Require Import Vec.
+From SV Require Import Vec LP.
 Import ListNotations.
 Local Open Scope Q_scope.
 
@@ -515,7 +515,60 @@ Fixpoint agg_active (row : svec) (j : nat) (x : list Q) (acc : option (nat * Q))
   | (k, a) :: rest => agg_active rest j x (if Nat.eqb k j then acc else Some (k, a * vnth x k))
   end.
 
+(* the basis part of AggregationPS::execute (after commit 506310f): does x_k (= active) have to enter the basis? *)
+Definition agg_decide (c : cmps) (active : nat) (oldupper oldlower : Q) (t : st) : bool * st :=
+  let xa := gx t active in
+  let ra := gr t active in
+  match gcs t active with
+  | ON_UPPER => (ne_f c xa oldupper, t)
+  | ON_LOWER => (ne_f c xa oldlower, t)
+  | FIXED =>
+      let au := eq_f c xa oldupper in
+      let al := eq_f c xa oldlower in
+      if au && al then (false, t)
+      else if au && Qleb ra 0 then (false, set_cs t active ON_UPPER)
+      else if al && Qleb 0 ra then (false, set_cs t active ON_LOWER)
+      else (true, t)
+  | _ => (false, t)
+  end.
+
 Definition exec_Aggregation (c : cmps) (j i old_j old_i : nat) (upper lower obj oldupper oldlower rhs : Q) (row col : svec) (t : st)
+  : option st :=
+  let t := fix_row_idx t i old_i in
+  let t := fix_col_idx t j old_j in
+  let aij := sget row j in
+  match agg_active row j (sx t) None with
+  | None => None
+  | Some (active, val) =>
+      let t := set_x t j (scaled_diff c rhs val / aij) in
+      let t := set_s t i rhs in
+      let t := set_svec t (sadd_skip col i (rhs / aij) (ss t)) in
+      let z := obj - sdot_skip col i (sy t) in
+      let t := set_y t i (z / aij) in
+      let t := set_r t j 0 in
+      let '(toBasis, t) := agg_decide c active oldupper oldlower t in
+      let res :=
+        if toBasis
+        then
+          let aik := sget row active in
+          let ra := gr t active in
+          let t1 := set_y t i (gy t i + ra / aik) in
+          let t1 := set_r t1 j (- (aij / aik) * ra) in
+          let t1 := set_r (set_cs t1 active BASIC) active 0 in
+          if eq_f c (gx t1 j) upper then Some (set_cs t1 j ON_UPPER)
+          else if eq_f c (gx t1 j) lower then Some (set_cs t1 j ON_LOWER)
+          else if is_pinf c upper && is_ninf c lower then Some (set_cs t1 j ZERO)
+          else None
+        else Some (set_cs t j BASIC) in
+      match res with
+      | Some t2 => Some (set_rs t2 i ON_UPPER)
+      | None => None
+      end
+  end.
+
+(* the rule before commit 506310f (kept for the refutation example `aggregation_dual_refuted`): the remaining variable
+   is put into the basis with reduced cost 0 but the row dual is not recomputed *)
+Definition exec_Aggregation_old (c : cmps) (j i old_j old_i : nat) (upper lower obj oldupper oldlower rhs : Q) (row col : svec) (t : st)
   : option st :=
   let t := fix_row_idx t i old_i in
   let t := fix_col_idx t j old_j in
@@ -547,8 +600,24 @@ Definition exec_Aggregation (c : cmps) (j i old_j old_i : nat) (upper lower obj 
       end
   end.
 
-(* MultiAggregationPS *)
+(* MultiAggregationPS (after commit aa39d1d) *)
 Definition exec_MultiAggregation (c : cmps) (j i old_j old_i : nat) (obj const : Q) (onLhs eqCons : bool) (row col : svec) (t : st) : st :=
+  let t := fix_row_idx t i old_i in
+  let t := fix_col_idx t j old_j in
+  let aij := sget row j in
+  let val := sdot_skip row j (sx t) in
+  let t := set_x t j (scaled_diff c const val / aij) in
+  let t := set_s t i const in
+  let t := set_svec t (sadd_skip col i (const / aij) (ss t)) in
+  let z := obj - sdot_skip col i (sy t) in
+  let t := set_y t i (z / aij) in
+  let t := set_r t j 0 in
+  let t := set_cs t j BASIC in
+  set_rs t i (if eqCons then FIXED else if onLhs then ON_LOWER else ON_UPPER).
+
+(* the rule before commit aa39d1d (kept for the refutation example): slack of the aggregated row set to 0, the slacks
+   of the other rows containing x_j not shifted back *)
+Definition exec_MultiAggregation_old (c : cmps) (j i old_j old_i : nat) (obj const : Q) (onLhs eqCons : bool) (row col : svec) (t : st) : st :=
   let t := fix_row_idx t i old_i in
   let t := fix_col_idx t j old_j in
   let aij := sget row j in
@@ -681,3 +750,77 @@ Fixpoint run_steps (c : cmps) (hist_rev : list step) (t : st) : option st :=
   end.
 
 Definition count_basic (l : list vstat) : nat := length (filter is_basic l).
+
+(* ------------------------------------------------------------------------------------------------------------ *)
+(* The reductions behind the steps as LP-to-LP maps (LP before the reduction |-> LP after it), and what the
+   constructors of the PostStep classes record.  Used by the step theorems; the ORDER in which the simplifier applies
+   reductions and its decision which ones fire are not modelled.  LPs are in minimisation form here. *)
+
+(* removal of element i, the last element moves into the hole (SPxLPBase::removeRow / removeCol) *)
+Definition swap_remove {A} (d : A) (i : nat) (l : list A) : list A :=
+  map (fun k => if Nat.eqb k i then nth (length l - 1) l d else nth k l d) (seq 0 (length l - 1)).
+
+Definition coef (P : lp) (i j : nat) : Q := vnth (r_coef (rowi P i)) j.
+
+(* sparse copy of a dense vector given by its entries (lp.colVector(j), lp.rowVector(i)) *)
+Definition sp_of (f : nat -> Q) (n : nat) : svec :=
+  flat_map (fun k => if Qeq_bool (f k) 0 then [] else [(k, f k)]) (seq 0 n).
+Definition sp_col (P : lp) (j : nat) : svec := sp_of (fun i => coef P i j) (nrows P).
+Definition sp_row (P : lp) (i : nat) : svec := sp_of (fun j => coef P i j) (ncols P).
+
+Definition shift_side (o : option Q) (d : Q) : option Q := option_map (fun v => v - d) o.
+
+(* FreeConstraintPS / EmptyConstraintPS: row i is dropped *)
+Definition red_remove_row (P : lp) (i : nat) : lp :=
+  {| maximize := maximize P; offset := offset P; cols := cols P; rows := swap_remove drow i (rows P) |}.
+
+(* FixVariablePS: column j is fixed at val and dropped; sides move by a_ij * val, the objective offset by c_j * val *)
+Definition red_FixVariable (P : lp) (j : nat) (val : Q) : lp :=
+  {| maximize := maximize P; offset := offset P + c_obj (colj P j) * val;
+     cols := swap_remove dcol j (cols P);
+     rows := map (fun rw => {| r_lhs := shift_side (r_lhs rw) (vnth (r_coef rw) j * val);
+                               r_coef := swap_remove 0 j (r_coef rw);
+                               r_rhs := shift_side (r_rhs rw) (vnth (r_coef rw) j * val) |}) (rows P) |}.
+Definition rec_FixVariable (P : lp) (j : nat) (val : Q) (correctIdx : bool) : step :=
+  FixVariablePS j (ncols P - 1) val (c_obj (colj P j))
+    (match c_lo (colj P j) with Some l => l | None => - (1) end)      (* only compared with each other and with val *)
+    (match c_up (colj P j) with Some u => u | None => 1 end)
+    correctIdx (sp_col P j).
+
+(* FixBoundsPS: both bounds of column j become val (the column is removed by a later FixVariable) *)
+Definition red_FixBounds (P : lp) (j : nat) (val : Q) : lp :=
+  {| maximize := maximize P; offset := offset P;
+     cols := upd dcol (cols P) j {| c_obj := c_obj (colj P j); c_lo := Some val; c_up := Some val |};
+     rows := rows P |}.
+
+(* RowObjPS (handleRowObjectives): a slack column n with cost w, coefficient 1 in row i and bounds [-rhs_i, -lhs_i] is
+   appended, row i becomes the equation  A_i x + x_n = 0.  (The row objective itself has no counterpart in LP.v.) *)
+Definition red_RowObj (P : lp) (i : nat) (w : Q) : lp :=
+  {| maximize := maximize P; offset := offset P;
+     cols := cols P ++ [{| c_obj := w; c_lo := option_map Qopp (r_rhs (rowi P i)); c_up := option_map Qopp (r_lhs (rowi P i)) |}];
+     rows := map (fun k => if Nat.eqb k i
+                           then {| r_lhs := Some 0; r_coef := r_coef (rowi P k) ++ [1]; r_rhs := Some 0 |}
+                           else {| r_lhs := r_lhs (rowi P k); r_coef := r_coef (rowi P k) ++ [0]; r_rhs := r_rhs (rowi P k) |})
+                 (seq 0 (nrows P)) |}.
+
+(* number of BASIC entries among the first n *)
+Fixpoint cntb (l : list vstat) (n : nat) : nat :=
+  match n with O => O | S k => (cntb l k + (if is_basic (snth l k) then 1 else 0))%nat end.
+
+(* the invariants of the walk, for an LP in minimisation form *)
+Definition prim_ident (P : lp) (t : st) : Prop := forall i, (i < nrows P)%nat -> gs t i == activity P i (sx t).
+Definition dual_ident (P : lp) (t : st) : Prop :=
+  forall j, (j < ncols P)%nat -> gr t j == c_obj (colj P j) - vnth (tmat_vec (matrix P) (sy t)) j.
+Definition in_bounds (lo up : option Q) (v : Q) : Prop := in_lo lo v /\ in_up up v.
+Definition prim_feas (P : lp) (t : st) : Prop :=
+  (forall j, (j < ncols P)%nat -> in_bounds (c_lo (colj P j)) (c_up (colj P j)) (gx t j)) /\
+  (forall i, (i < nrows P)%nat -> in_bounds (r_lhs (rowi P i)) (r_rhs (rowi P i)) (gs t i)).
+(* complementary slackness in minimisation form: a positive multiplier needs the lower side tight, a negative the upper *)
+Definition cs_prop (k : Q) (lo up : option Q) (v : Q) : Prop :=
+  (0 < k -> match lo with Some l => l == v | None => False end) /\
+  (k < 0 -> match up with Some u => u == v | None => False end).
+Definition dual_signs (P : lp) (t : st) : Prop :=
+  (forall j, (j < ncols P)%nat -> cs_prop (gr t j) (c_lo (colj P j)) (c_up (colj P j)) (gx t j)) /\
+  (forall i, (i < nrows P)%nat -> cs_prop (gy t i) (r_lhs (rowi P i)) (r_rhs (rowi P i)) (gs t i)).
+Definition basis_count (P : lp) (t : st) : Prop := (cntb (scs t) (ncols P) + cntb (srs t) (nrows P) = nrows P)%nat.
+Definition wf_lp (P : lp) : Prop := forall i, (i < nrows P)%nat -> length (r_coef (rowi P i)) = ncols P.
